@@ -1,9 +1,16 @@
 """C16 - LDM operations are atomic under concurrent providers, consumers and maintenance.
 
-Decides: lockset discipline of the in-memory store and of the service registries/subscriptions, atomic
-check-then-act sections, snapshot discipline (live containers are never handed out or iterated unlocked,
-no mutation of a container while a loop iterates it), acyclic lock order, consumer callbacks invoked with
-no LDM lock held.  Does not decide linearizability of multi-step interface operations, nor TinyDB.
+Decides: lockset discipline (lockset: every access to the in-memory store dictionary, the id counter, the two
+registries, the subscription list and the last-notified map - and every write of the two reactive stamps - holds the
+owning lock; the maintenance-thread wrapper delegates every store operation to super() under data_containers_lock);
+atomic check-then-act sections (atomic: within a function no read of a guarded field in one critical section followed
+by its write in another section of the same lock); snapshot discipline (snapshot: no method of the store / service
+families returns the live shared container or a live view of it, and a loop over the live container contains no
+mutation of it that is not followed at once by return / break / raise); lock order (order: acquired-while-held graph
+acyclic, re-acquisition only of RLocks, and every consumer callback invoked with no LDM lock held at the call nor
+possibly inherited from a caller).
+Does not decide linearizability of multi-step interface operations (registration check and insertion are two critical
+sections by design), the TinyDB back-end, nor absence of exceptions as a value property.
 """
 from __future__ import annotations
 
